@@ -57,6 +57,12 @@ func (r *bytesReader) Read(data []byte) (int, error) {
 // Buffer holds an in-memory implementation of ociregistry.BlobWriter.
 type Buffer struct {
 	commit           func(b *Buffer) error
+	// commitMu serializes Commit and Cancel, so that the check, the
+	// commit callback and the result of one Commit form a unit with
+	// respect to other Commit and Cancel calls on the same buffer.
+	// It is acquired before mu (and before any lock the callback takes).
+	commitMu sync.Mutex
+
 	mu               sync.Mutex
 	buf              []byte
 	checkStartOffset int64
@@ -84,6 +90,8 @@ func NewBuffer(commit func(b *Buffer) error, uuid string) *Buffer {
 }
 
 func (b *Buffer) Cancel() error {
+	b.commitMu.Lock()
+	defer b.commitMu.Unlock()
 	b.mu.Lock()
 	defer b.mu.Unlock()
 	b.commitErr = fmt.Errorf("upload canceled")
@@ -159,6 +167,8 @@ func (b *Buffer) ID() string {
 // Commit implements [ociregistry.BlobWriter.Commit] by checking
 // that everything looks OK and calling the commit function if so.
 func (b *Buffer) Commit(dig ociregistry.Digest) (_ ociregistry.Descriptor, err error) {
+	b.commitMu.Lock()
+	defer b.commitMu.Unlock()
 	if err := b.checkCommit(dig); err != nil {
 		return ociregistry.Descriptor{}, err
 	}
